@@ -263,6 +263,62 @@ fn c05_host_clock_algebra() {
 }
 }
 
+// C05: the host clock does not depend on where the runtime's own clock stands (every tokio runtime
+// starts from its own origin, and a bounce replaces the runtime, so the origin changes - possibly
+// backwards - in the middle of a host's life): two timers with the same registration offset and
+// epoch, driven through the same ticks and the same in-step progress on runtimes with different
+// symbolic origins, agree on elapsed / sim_elapsed / since_epoch; and after a "bounce" (a fresh
+// origin handed to `now`) the clock continues from the sum of the ticks: it neither restarts nor
+// jumps.
+// @verif id=C05 tier=quick role=clock_origin_independence timeout=900
+crate::verif_proof! { unwind = 4;
+fn c05_host_clock_is_independent_of_the_runtime_origin() {
+    let off_ms: u32 = kani::any();
+    let epoch_s: u32 = kani::any();
+    let tick_ms: u16 = kani::any();
+    let p_ns: u32 = kani::any();
+    kani::assume(p_ns < 1_000_000);
+    let o1: u32 = kani::any();
+    let o2: u32 = kani::any();
+    let o3: u32 = kani::any();
+    let offset = Duration::from_millis(off_ms as u64);
+    let epoch = Duration::new(epoch_s as u64, 0);
+    let tick = Duration::from_millis(tick_ms as u64);
+    let p = Duration::new(0, p_ns);
+    let origin1 = Duration::from_millis(o1 as u64);
+    let origin2 = Duration::from_millis(o2 as u64);
+    let origin3 = Duration::from_millis(o3 as u64);
+    let mut a = HostTimer::new(offset, epoch);
+    let mut b = HostTimer::new(offset, epoch);
+    // first step on runtimes with different origins, observed after the same progress
+    a.now(Instant::model_at(origin1));
+    b.now(Instant::model_at(origin2));
+    tokio::time::model_set_now(origin1 + p);
+    let (ea, sa, qa) = (a.elapsed(), a.sim_elapsed(), a.since_epoch());
+    tokio::time::model_set_now(origin2 + p);
+    let (eb, sb, qb) = (b.elapsed(), b.sim_elapsed(), b.since_epoch());
+    assert!(ea == eb && sa == sb && qa == qb, "the runtime's origin is invisible");
+    assert!(ea == p && sa == offset + p && qa == epoch + offset + p);
+    // end of the step; `a` is bounced: its next runtime starts from an unrelated origin
+    a.tick(tick);
+    b.tick(tick);
+    a.now(Instant::model_at(origin3));
+    b.now(Instant::model_at(origin2 + tick));
+    tokio::time::model_set_now(origin3 + p);
+    let (ea2, sa2, qa2) = (a.elapsed(), a.sim_elapsed(), a.since_epoch());
+    tokio::time::model_set_now(origin2 + tick + p);
+    let (eb2, sb2, qb2) = (b.elapsed(), b.sim_elapsed(), b.since_epoch());
+    assert!(ea2 == eb2 && sa2 == sb2 && qa2 == qb2, "a bounced host keeps counting like one that was not bounced");
+    assert!(ea2 == tick + p, "elapsed continues from the sum of the ticks");
+    assert!(ea2 >= ea || tick < p, "monotone across the step boundary");
+    assert!(sa2 == offset + tick + p && qa2 == epoch + sa2, "sim time = host time + offset; epoch time = epoch + sim time");
+    kani::cover!(o3 < o1 && tick_ms > 0 && p_ns > 0, "the new runtime's clock is behind the old one");
+    kani::cover!(o1 != o2 && off_ms > 0, "different origins");
+    std::mem::forget(a);
+    std::mem::forget(b);
+}
+}
+
 // ---------------------------------------------------------------------------------------------------
 // C12: listener queue. A SYN for `dst` is queued iff a listener is bound on dst.port AND its bind
 // address matches dst; otherwise the SYN (and with it the connector's one-shot sender) is dropped,
@@ -382,6 +438,55 @@ fn c12_accept_is_fifo_and_unbind_discards_the_queue() {
 }
 }
 
+// @verif id=C12 tier=quick role=accept_order timeout=900 desc=first-connector-gave-up,two-still-waiting
+// What `TcpListener::accept` does with the queue: take requests until one whose connector is still
+// waiting (its one-shot channel is open). With the FIRST connector gone and two still waiting, the
+// two live requests are handed out in arrival order (whether the dead one is skipped inside
+// `Tcp::accept` or by the caller is not asserted).
+crate::verif_proof! { unwind = 8;
+fn c12_accept_keeps_arrival_order_around_a_connector_that_gave_up() {
+    let mut tcp = Tcp::new(4);
+    let addr = SocketAddr::new(IpAddr::V4(Ipv4Addr::UNSPECIFIED), 80);
+    let l = tcp.bind(addr);
+    std::mem::forget(l);
+    let dst = SocketAddr::new(HOST_IP, 80);
+    let (s1, rx1) = syn();
+    let (s2, rx2) = syn();
+    let (s3, rx3) = syn();
+    let p: [u16; 3] = kani::any();
+    let src = [SocketAddr::new(PEER_IP, p[0]), SocketAddr::new(OTHER_IP, p[1]), SocketAddr::new(PEER_IP, p[2])];
+    kani::assume(p[0] != p[2]);
+    let r = tcp.receive_from_network(src[0], dst, Segment::Syn(s1));
+    std::mem::forget(r);
+    let r = tcp.receive_from_network(src[1], dst, Segment::Syn(s2));
+    std::mem::forget(r);
+    let r = tcp.receive_from_network(src[2], dst, Segment::Syn(s3));
+    std::mem::forget(r);
+    drop(rx1); // the first connector timed out / was cancelled
+    let mut live: [Option<SocketAddr>; 3] = [None, None, None];
+    let mut n = 0;
+    let mut i = 0;
+    while i < 4 {
+        match tcp.accept(addr) {
+            Some((syn, from)) => {
+                if syn.ack.send(()).is_ok() {
+                    live[n] = Some(from);
+                    n += 1;
+                }
+            }
+            None => break,
+        }
+        i += 1;
+    }
+    assert!(n == 2, "both waiting connectors are accepted, the one that gave up is not");
+    assert!(live[0] == Some(src[1]) && live[1] == Some(src[2]), "in arrival order");
+    kani::cover!(n == 2, "two live requests behind a dead one");
+    std::mem::forget(tcp);
+    std::mem::forget(rx2);
+    std::mem::forget(rx3);
+}
+}
+
 // C12/C15: the live-stream table. A stream counts as established until both halves are closed (or it
 // is reset); afterwards its local port is assignable again; binding a port in use fails with
 // AddrInUse per protocol, UDP and TCP listener spaces are independent.
@@ -461,16 +566,7 @@ fn ephemeral(u: u16, t: u16, s: u16) -> (u16, u16) {
     let p = host.assign_ephemeral_port();
     assert!(p >= 50000 && p <= 50003);
     assert!(!used[(p - 50000) as usize], "never a port bound by UDP, a TCP listener or a live stream");
-    // first free port cyclically from the cursor
-    let mut k = 0u16;
-    while k < 4 {
-        let q = (cur + k) % 4;
-        if !used[q as usize] {
-            assert!(p == 50000 + q);
-            break;
-        }
-        k += 1;
-    }
+    // (which of the free ports is chosen is not part of the property and is not asserted)
     assert!(host.next_ephemeral_port >= 50000 && host.next_ephemeral_port <= 50003);
     std::mem::forget(host);
     (cur, p)
@@ -480,8 +576,8 @@ crate::verif_proof! { unwind = 8;
 fn c15_ephemeral_port_skips_all_three_kinds_of_socket() {
     let (cur, p) = ephemeral(1, 1, 3);
     assert!(p == 50000 || p == 50002);
-    kani::cover!(cur == 3 && p == 50000, "skipped the stream's port and wrapped around");
-    kani::cover!(cur == 1 && p == 50002, "skipped a port bound by both protocols");
+    kani::cover!(cur == 3 && p != 50003, "cursor on the live stream's port at the end of the range: skipped");
+    kani::cover!(cur == 1 && p != 50001, "cursor on a port bound by both protocols: skipped");
 }
 }
 // @verif id=C15 tier=quick role=ephemeral_ports timeout=900 desc=stream@50000,listener@50001,udp@50002
